@@ -31,6 +31,8 @@
  *   LMMVIOL ... / LMMMON ...                      (monitor)
  *   ABORT <idx> <code>                            the library aborted (xbt_die / xbt_assert / BMF give-up) in op idx;
  *                                                 the message is on stderr; exit status is SIGABRT
+ *   CPULIMIT <idx> <code>                         op idx burnt 3 s of CPU time (a history takes milliseconds): the solver
+ *                                                 does not return; exit status is SIGXCPU
  *   EXCEPTION <idx> <what>                        a C++ exception escaped the library; the run stops there
  *   DONE solves=<n> effective=<n> wrap=<0|1>
  *
@@ -116,6 +118,17 @@ void on_abort(int)
   // returning lets abort() finish with the default action: exit status = SIGABRT
 }
 
+void on_xcpu(int)
+{
+  fflush(stdout); // we interrupt a solver loop, never stdio
+  char buf[64];
+  int n = snprintf(buf, sizeof buf, "CPULIMIT %d %c\n", g_cur_idx, g_cur_code);
+  if (write(1, buf, n) < 0) {
+  }
+  signal(SIGXCPU, SIG_DFL);
+  raise(SIGXCPU);
+}
+
 const char* policy_name(Policy p)
 {
   switch (p) {
@@ -138,11 +151,12 @@ int main(int argc, char** argv)
   struct rlimit rl = {0, 0};
   setrlimit(RLIMIT_CORE, &rl);
   signal(SIGABRT, on_abort);
-  /* self-destruct: a solver that loops forever is killed by SIGXCPU after 2 s of CPU time (load independent; a normal
-   * history takes a few ms), and by SIGALRM after 60 s of wall time whatever happens to the runner */
-  struct rlimit cpu = {2, 3};
+  /* self-destruct: a solver that loops forever is killed by SIGXCPU after 3 s of CPU time (load independent; a normal
+   * history takes a few ms), and by SIGALRM after 120 s of wall time whatever happens to the runner */
+  struct rlimit cpu = {3, 4};
   setrlimit(RLIMIT_CPU, &cpu);
-  alarm(60);
+  signal(SIGXCPU, on_xcpu);
+  alarm(120);
   static char outbuf[1 << 16];
   setvbuf(stdout, outbuf, _IOFBF, sizeof outbuf);
 
